@@ -260,7 +260,7 @@ Definition ATOM_LIMIT : Z := 268435456.   (* 2^ATOM_BITS *)
 
 Definition op_ok (o : aop) (s : sstate) : bool :=
   match o with
-  | AInit g hs => (0 <=? hs) && (hs <? 4294967296) &&
+  | AInit g hs => (0 <=? hs) && (hs <=? ATOM_LIMIT) &&       (* ATOM_TO_LOC "assumes s is smaller than ATOM_MASK" *)
                   match aget g (sgroups s) with Some sg => scount sg <? 1000000 | None => true end
   | AReg g obj => negb (obj =? 0) &&
                   match s_live_group g s with Some sg => snext sg <? ATOM_LIMIT | None => true end
